@@ -200,7 +200,8 @@ def run_history(sc, want_idempotence=True, faults=None, audits=True):
         w.build()
         clock = Clock(epoch_ns=w.epoch_ns + 10_000_000_000 + int(sc.get('clock_offset_s', 0)) * 10**9,
                       key=sc['order_key'], mode='micro')
-        seam = Seam(w.root, order_key=sc['order_key'], virtual_root=True, clock=clock, faults=faults, patch_time=True)
+        seam = Seam(w.root, order_key=sc['order_key'], virtual_root=True, clock=clock, faults=faults, patch_time=True,
+                    read_chunks=sc.get('chunks'))
         opi = 0
         session = {}
         for ri, rnd in enumerate(sc.get('rounds', [])):
